@@ -7,60 +7,96 @@
 //!   ab:e:n:s   add_template        (borrowed name/source; n = name index, s = source index)
 //!   ao:e:n:s   add_template_owned
 //!   rm:e:n     remove_template          cl:e   clear_templates
-//!   sl:e:l     set_loader(loader table l, 1..=5)
+//!   sl:e:l     set_loader(loader table l, 1..=6; table 6 answers according to the global phase)
+//!   fl:v       the outside world changes: loader table 6 now answers with phase v (0: fails / broken
+//!              source / missing, 1: fine) — an impure loader
 //!   af:e:k:v / rf:e:k    add/remove filter  (k = registry name index 0/1, v = 0|1|2|B(builtin))
 //!   at:e:k:v / rt:e:k    add/remove test        ag:e:k:v / rg:e:k   add/remove global
+//!   lt:e:f:v   load-time configuration field f := v  (0 trim_blocks, 1 lstrip_blocks,
+//!              2 keep_trailing_newline, 3 set_syntax(0 default,1 `${ }` variables,2 `<% %>` blocks),
+//!              4 set_auto_escape_callback(0 default,1 always html,2 never,3 only "a"/"c"))
+//!   ru:e:f:v   run-time configuration field f := v  (0 set_undefined_behavior, 1 set_formatter,
+//!              2 set_debug, 3 set_recursion_limit, 4 set_fuel, 5 set_path_join_callback,
+//!              6 set_unknown_method_callback)
 //!   cn:e       clone env e (the clone becomes a new live environment)
 //!   r:e:n:c[:log]  get_template(n).render(ctx c) on env e itself (mutates its memo cache);
 //!                  `log` = the names the engine asked the loader for (filled in by the harness,
 //!                  ignored on replay) — the Lean store model replays exactly these lookups
+//!   hd:e:n[:log]   get_template(n) on env e, keep the handle, mutate a CLONE of e (remove/replace n,
+//!                  clear, other loader, other configuration), render the handle again: unchanged
 //!   jk:e:k     a failing compile / failing render that must leave no residue (junk alphabet)
 //!   th:e:k     8 threads render concurrently from env e (runtime part, validated only)
 //!
-//! Output line:  `<annotated case>\t<impl trace>\t<oracle trace>\t<render outcomes of r ops>`; traces have one entry per
-//! step separated by " / ".  The impl trace is what the Lean model predicts (op result, and per
-//! live env: get result per name, `templates()` listing, registry contents).  The oracle trace is
-//! `=` when the property's predicates hold at that step, otherwise `FAIL<site>{detail}`:
-//!   fresh      env differs from a freshly built environment with the same final contents
+//! Header lines (consumed by the model driver / the python side):
+//!   #cmp <syntax> <source> <0|1>     does the source compile under that syntax (the `compiles`
+//!                                    parameter of the model, measured on the real compiler)
+//!   #tbl <name> <source> <ltcfg> <H> fingerprint of the real compilation of (name, source) under the
+//!                                    load-time configuration ltcfg = 5 digits trim,lstrip,ktn,syntax,autoescape
+//!
+//! Output line:  `<annotated case>\t<impl trace>\t<oracle trace>\t<render outcomes of r ops>`; traces
+//! have one entry per step separated by " / ".  The impl trace is what the Lean model predicts (op
+//! result, and per live env: get result per name as `s<source>#<fingerprint of the compiled template>`,
+//! `templates()` listing, registry contents, load-time/run-time configuration as observed through
+//! getters and probes).  The oracle trace is `=` when the property's predicates hold at that step,
+//! otherwise `FAIL<site>{detail}`:
+//!   fresh      env differs from a freshly built environment with the same final configuration in
+//!              which every template was loaded under the load-time configuration of its last load
 //!   failed-insert  an add that returned Err changed what the environment does
-//!   sticky     a template that was present changed its source without remove/clear/re-add
+//!   sticky     a template that was present changed without remove/clear/re-add
 //!   repeat     the same template+context gave two different results
 //!   isolation  an operation on one environment changed a clone/the original
+//!   handle     a template handle changed while a clone of its environment was modified
 //!   threads    a concurrent render differs from the single threaded fresh-environment result
 //!
 //! usage: c15 gen <quick|thorough> [count] | c15 one <case tokens…> [--once] | c15 file <corpus file>
 //!        c15 foreign <rounds> | c15 fone fx:<x>:<site>:<consumer>:<via>   (foreign-value stream, see below)
 use minijinja::value::Value;
-use minijinja::{context, Environment, Error, ErrorKind};
+use minijinja::{context, AutoEscape, Environment, Error, ErrorKind, UndefinedBehavior};
 use mjh::*;
+use std::borrow::Cow;
 use std::collections::BTreeMap;
 use std::io::Write;
-use std::sync::atomic::{AtomicBool, Ordering};
-use std::sync::Mutex;
+use std::sync::atomic::{AtomicBool, AtomicUsize, Ordering};
+use std::sync::{Mutex, OnceLock};
 
-const NAMES: [&str; 4] = ["a", "b", "c", "d"];
-const RECURSION_LIMIT: usize = 24;
+/// "./a" is a name of its own (names are never normalised); "A" and " a" are only ever looked up.
+const NAMES: [&str; 5] = ["a", "b.html", "c", "d.json", "./a"];
+const PROBE_NAMES: [&str; 2] = ["A", " a"];
+const NN: usize = 5;
+
+/// every source ends with a tail that is sensitive to each load-time setting: a block tag with
+/// leading blanks (lstrip_blocks) followed by a newline (trim_blocks), a `{{ }}` expression (syntax)
+/// that prints html metacharacters (auto-escape), and a trailing newline (keep_trailing_newline)
+macro_rules! src {
+    ($body:expr) => {
+        concat!($body, "\n  {% if true %}\n  <{{ '<&>' }}>\n  {% endif %}\n")
+    };
+}
 
 /// Source alphabet.  Every source renders its own identity; 0/1/2/6/14 expose registry state;
-/// 3/4/5/7/12/13 chain template lookups; 8/9 do not compile; 10/11 fail at run time.
-const SOURCES: [&str; 16] = [
-    "0[{{ g }}|{{ 'x'|f }}|{{ 'y'|upper }}|{{ v }}|{{ [g, v]|tojson }}]",
-    "1[{% if 3 is t %}T{% else %}F{% endif %}{% if 3 is odd %}O{% else %}E{% endif %}]",
-    "2[{% for i in range(2) %}{{ i }}{% endfor %}|{{ g }}]",
-    "3<{% include 'a' %}>",
-    "4<{% include 'b' %}{% include 'c' %}>",
-    "{% extends 'a' %}{% block x %}5{{ g }}{% endblock %}",
-    "6[{% block x %}base{{ 'z'|f }}{% endblock %}]",
-    "{% extends 'd' %}{% block x %}7{{ super() }}{% endblock %}",
-    "8{% if %}",
-    "9{% endblock %}{{ ",
-    "10{{ v // 0 }}",
-    "11{{ nofn() }}",
-    "12<{% include 'd' ignore missing %}|{% include ['c', 'b'] %}>",
-    "{% from 'b' import m %}13{{ m() }}",
-    "{% macro m() %}M14{{ g }}{% endmacro %}14{{ 'w'|f }}",
-    "15{% for x in [1, 2] %}{% set q %}{% include 'c' %}{% endset %}{{ q|length }}{% endfor %}",
+/// 3/4/5/7/12/13/15 chain template lookups; 8/9 do not compile (8 does with `<% %>` blocks);
+/// 10/11 fail at run time; 16 needs recursion depth and fuel; 17 calls an unknown method.
+const SOURCES: [&str; 18] = [
+    src!("0[{{ g }}|{{ 'x'|f }}|{{ 'y'|upper }}|{{ v }}|{{ [g, v]|tojson }}]"),
+    src!("1[{% if 3 is t %}T{% else %}F{% endif %}{% if 3 is odd %}O{% else %}E{% endif %}]"),
+    src!("2[{% for i in range(2) %}{{ i }}{% endfor %}|{{ g }}]"),
+    src!("3<{% include 'a' %}>"),
+    src!("4<{% include 'b.html' %}{% include 'c' %}>"),
+    src!("{% extends 'a' %}{% block x %}5{{ g }}{% endblock %}"),
+    src!("6[{% block x %}base{{ 'z'|f }}{% endblock %}]"),
+    src!("{% extends 'd.json' %}{% block x %}7{{ super() }}{% endblock %}"),
+    src!("8{% if %}"),
+    src!("9{% endblock %}{{ "),
+    src!("10{{ v // 0 }}"),
+    src!("11{{ nofn() }}"),
+    src!("12<{% include 'd.json' ignore missing %}|{% include ['c', 'b.html'] %}>"),
+    src!("{% from 'b.html' import m %}13{{ m() }}"),
+    src!("{% macro m() %}M14{{ g }}{% endmacro %}14{{ 'w'|f }}"),
+    src!("15{% for x in [1, 2] %}{% set q %}{% include 'c' %}{% endset %}{{ q|length }}{% endfor %}"),
+    src!("16{% macro r(n) %}{% if n > 0 %}{{ r(n - 1) }}{% endif %}.{% endmacro %}{{ r(4) }}"),
+    src!("17{{ 'x'.nomethod(1) }}|{{ undefined_thing }}"),
 ];
+const NS: usize = 18;
 
 #[derive(Clone, Copy, PartialEq)]
 enum LR {
@@ -69,15 +105,18 @@ enum LR {
     Fail,
 }
 use LR::*;
-/// Loader tables 1..=5 (index 0 = "no loader set").
-const LOADERS: [[LR; 4]; 6] = [
-    [Missing, Missing, Missing, Missing],
-    [Src(0), Src(6), Src(3), Src(8)],
-    [Src(1), Src(5), Fail, Src(2)],
-    [Src(4), Src(14), Src(13), Missing],
-    [Src(7), Src(10), Src(12), Src(6)],
-    [Missing, Src(15), Src(9), Src(11)],
+/// Loader tables 1..=5 (index 0 = "no loader set"); table 6 = row 6 in phase 0, row 7 in phase 1.
+const LOADERS: [[LR; NN]; 8] = [
+    [Missing, Missing, Missing, Missing, Missing],
+    [Src(0), Src(6), Src(3), Src(8), Src(2)],
+    [Src(1), Src(5), Fail, Src(2), Missing],
+    [Src(4), Src(14), Src(13), Missing, Src(16)],
+    [Src(7), Src(10), Src(12), Src(6), Src(17)],
+    [Missing, Src(15), Src(9), Src(11), Src(0)],
+    [Fail, Src(9), Missing, Fail, Src(8)],
+    [Src(2), Src(6), Src(16), Src(17), Src(1)],
 ];
+static PHASE: AtomicUsize = AtomicUsize::new(0);
 
 const FILTER_NAMES: [&str; 2] = ["f", "upper"];
 const TEST_NAMES: [&str; 2] = ["t", "odd"];
@@ -86,7 +125,7 @@ const GLOBAL_NAMES: [&str; 2] = ["g", "range"];
 static LOGGING: AtomicBool = AtomicBool::new(true);
 static REAL_LOG: Mutex<Vec<usize>> = Mutex::new(Vec::new());
 static FRESH_LOG: Mutex<Vec<usize>> = Mutex::new(Vec::new());
-static JUNK_SEEN: Mutex<BTreeMap<usize, String>> = Mutex::new(BTreeMap::new());
+static JUNK_SEEN: Mutex<BTreeMap<(usize, [u8; 5], [u8; 7]), String>> = Mutex::new(BTreeMap::new());
 
 fn loader_fn(table: usize, real: bool) -> impl Fn(&str) -> Result<Option<String>, Error> + Send + Sync + 'static {
     move |name: &str| {
@@ -95,7 +134,8 @@ fn loader_fn(table: usize, real: bool) -> impl Fn(&str) -> Result<Option<String>
             let log = if real { &REAL_LOG } else { &FRESH_LOG };
             log.lock().unwrap().push(idx.unwrap_or(99));
         }
-        match idx.map(|i| LOADERS[table][i]) {
+        let row = if table == 6 { 6 + PHASE.load(Ordering::SeqCst).min(1) } else { table };
+        match idx.map(|i| LOADERS[row][i]) {
             None | Some(Missing) => Ok(None),
             Some(Src(s)) => Ok(Some(SOURCES[s].to_string())),
             Some(Fail) => Result::Err(Error::new(ErrorKind::InvalidOperation, "loader failure")),
@@ -120,15 +160,188 @@ impl Reg {
     }
 }
 
+// ---------------------------------------------------------------------------- configuration
+
+/// load-time configuration: trim, lstrip, keep_trailing_newline, syntax, auto-escape callback
+type Lt = [u8; 5];
+/// run-time configuration: undefined, formatter, debug, recursion limit, fuel, path join, unknown method
+type Rt = [u8; 7];
+const LT_DEFAULT: Lt = [0, 0, 0, 0, 0];
+const RT_DEFAULT: Rt = [0, 0, 1, 0, 0, 0, 0];
+const LT_RANGE: [u8; 5] = [2, 2, 2, 3, 4];
+const RT_RANGE: [u8; 7] = [4, 2, 2, 3, 3, 2, 2];
+const RECURSION_LIMITS: [usize; 3] = [24, 8, 60];
+const FUELS: [Option<u64>; 3] = [None, Some(60), Some(5000)];
+
+fn lt_code(lt: &Lt) -> String {
+    lt.iter().map(|d| d.to_string()).collect()
+}
+fn rt_code(rt: &Rt) -> String {
+    rt.iter().map(|d| d.to_string()).collect()
+}
+
+fn syntax_of(v: u8) -> minijinja::syntax::SyntaxConfig {
+    use minijinja::syntax::SyntaxConfig;
+    match v {
+        0 => SyntaxConfig::default(),
+        1 => SyntaxConfig::builder().variable_delimiters("${", "}").build().unwrap(),
+        _ => SyntaxConfig::builder().block_delimiters("<%", "%>").build().unwrap(),
+    }
+}
+
+fn auto_escape_of(v: u8, name: &str) -> AutoEscape {
+    match v {
+        0 => minijinja::default_auto_escape_callback(name),
+        1 => AutoEscape::Html,
+        2 => AutoEscape::None,
+        _ => {
+            if name == "a" || name == "c" {
+                AutoEscape::Html
+            } else {
+                AutoEscape::None
+            }
+        }
+    }
+}
+
+fn apply_lt_field(env: &mut Environment<'static>, f: usize, v: u8) {
+    match f {
+        0 => env.set_trim_blocks(v == 1),
+        1 => env.set_lstrip_blocks(v == 1),
+        2 => env.set_keep_trailing_newline(v == 1),
+        3 => env.set_syntax(syntax_of(v)),
+        _ => match v {
+            0 => env.set_auto_escape_callback(minijinja::default_auto_escape_callback),
+            v => env.set_auto_escape_callback(move |name| auto_escape_of(v, name)),
+        },
+    }
+}
+
+/// move the environment's load-time configuration from `cur` to `want`, touching only the setters
+/// of fields that differ (a setter that is never called must equal its default)
+fn apply_lt(env: &mut Environment<'static>, cur: &mut Lt, want: &Lt) {
+    for f in 0..5 {
+        if cur[f] != want[f] {
+            apply_lt_field(env, f, want[f]);
+            cur[f] = want[f];
+        }
+    }
+}
+
+fn swap_join<'s>(name: &'s str, _parent: &'s str) -> Cow<'s, str> {
+    match name {
+        "a" => Cow::Borrowed("c"),
+        "c" => Cow::Borrowed("a"),
+        "probe-x" => Cow::Borrowed("probe-y"),
+        other => Cow::Borrowed(other),
+    }
+}
+fn identity_join<'s>(name: &'s str, _parent: &'s str) -> Cow<'s, str> {
+    Cow::Borrowed(name)
+}
+
+fn apply_rt_field(env: &mut Environment<'static>, f: usize, v: u8) {
+    match f {
+        0 => env.set_undefined_behavior(match v {
+            0 => UndefinedBehavior::Lenient,
+            1 => UndefinedBehavior::Strict,
+            2 => UndefinedBehavior::Chainable,
+            _ => UndefinedBehavior::SemiStrict,
+        }),
+        1 => match v {
+            0 => env.set_formatter(minijinja::escape_formatter),
+            _ => env.set_formatter(|out, state, value| {
+                out.write_str("\u{ab}")?;
+                minijinja::escape_formatter(out, state, value)?;
+                out.write_str("\u{bb}")?;
+                Ok(())
+            }),
+        },
+        2 => env.set_debug(v == 1),
+        3 => env.set_recursion_limit(RECURSION_LIMITS[v as usize % 3]),
+        4 => env.set_fuel(FUELS[v as usize % 3]),
+        5 => match v {
+            0 => env.set_path_join_callback(identity_join),
+            _ => env.set_path_join_callback(swap_join),
+        },
+        _ => match v {
+            0 => env.set_unknown_method_callback(|_state, _value, _method, _args| Result::Err(Error::from(ErrorKind::UnknownMethod))),
+            _ => env.set_unknown_method_callback(|_state, _value, method, _args| Ok(Value::from(format!("M({})", method)))),
+        },
+    }
+}
+
+fn apply_rt(env: &mut Environment<'static>, cur: &mut Rt, want: &Rt) {
+    for f in 0..7 {
+        if cur[f] != want[f] {
+            apply_rt_field(env, f, want[f]);
+            cur[f] = want[f];
+        }
+    }
+}
+
+/// a template that evaluates one expression, written in the given syntax
+fn expr_tpl(syn: u8, expr: &str) -> String {
+    if syn == 1 {
+        format!("${{ {} }}", expr)
+    } else {
+        format!("{{{{ {} }}}}", expr)
+    }
+}
+fn include_tpl(syn: u8, name: &str) -> String {
+    if syn == 2 {
+        format!("<% include '{}' %>", name)
+    } else {
+        format!("{{% include '{}' %}}", name)
+    }
+}
+
+fn fnv(s: &str) -> String {
+    let mut h: u64 = 0xcbf29ce484222325;
+    for b in s.as_bytes() {
+        h ^= *b as u64;
+        h = h.wrapping_mul(0x100000001b3);
+    }
+    format!("{:010x}", h & 0xff_ffff_ffff)
+}
+
+/// fingerprint of a compiled template: its instruction streams (root and blocks), the initial
+/// auto-escape decision and the syntax it carries — everything load-time configuration is baked into
+fn fingerprint(t: &minijinja::Template<'_, '_>) -> String {
+    let ct = minijinja::machinery::get_compiled_template(t);
+    let mut s = String::new();
+    let dump = |ins: &minijinja::machinery::Instructions<'_>, s: &mut String| {
+        let mut i = 0;
+        while let Some(instr) = ins.get(i) {
+            s.push_str(&serde_json::to_string(instr).unwrap_or_else(|_| "?".into()));
+            s.push('\n');
+            i += 1;
+        }
+    };
+    dump(&ct.instructions, &mut s);
+    for (name, ins) in ct.blocks.iter() {
+        s.push_str("block ");
+        s.push_str(name);
+        s.push('\n');
+        dump(ins, &mut s);
+    }
+    s.push_str(&format!("{:?}|{:?}", ct.initial_auto_escape, ct.syntax_config));
+    fnv(&s)
+}
+
 /// The abstraction of one environment (the spec state): what a fresh environment is built from.
 #[derive(Clone)]
 struct Spec {
-    contents: BTreeMap<usize, usize>, // name -> source (explicit templates and memoised ones)
+    /// name -> (source, load-time configuration at its last load); explicit and memoised templates
+    contents: BTreeMap<usize, (usize, Lt)>,
     loader: usize,
+    lt: Lt,
+    rt: Rt,
     filters: [Reg; 2],
     tests: [Reg; 2],
     globals: [Reg; 2],
-    pinned: BTreeMap<usize, usize>, // stickiness oracle: what the real env listed earlier
+    /// stickiness oracle: what the real env itself showed earlier (source code + fingerprint)
+    pinned: BTreeMap<usize, String>,
 }
 
 struct Live {
@@ -165,7 +378,8 @@ fn set_global(env: &mut Environment<'static>, k: usize, v: Reg) {
 
 fn new_env() -> Environment<'static> {
     let mut env = Environment::new();
-    env.set_recursion_limit(RECURSION_LIMIT);
+    env.set_recursion_limit(RECURSION_LIMITS[0]);
+    env.set_debug(true);
     env
 }
 
@@ -173,6 +387,8 @@ fn initial_spec() -> Spec {
     Spec {
         contents: BTreeMap::new(),
         loader: 0,
+        lt: LT_DEFAULT,
+        rt: RT_DEFAULT,
         filters: [Reg::Absent, Reg::Builtin],
         tests: [Reg::Absent, Reg::Builtin],
         globals: [Reg::Absent, Reg::Builtin],
@@ -180,28 +396,35 @@ fn initial_spec() -> Spec {
     }
 }
 
-/// A freshly built environment with the given contents.  The tier (borrowed/owned) of every
-/// template and the order of construction are chosen pseudo-randomly: they must not matter.
+/// A freshly built environment with the given value.  Every template is loaded under the load-time
+/// configuration of its last load (the documented rule: a setting affects the templates loaded
+/// after the change), then the final configuration is installed.  The tier (borrowed/owned) of
+/// every template and the order of construction are chosen pseudo-randomly: they must not matter.
 fn build_fresh(spec: &Spec, rng: &mut Rng) -> Environment<'static> {
     let mut env = new_env();
+    let mut cur_lt = LT_DEFAULT;
+    let mut cur_rt = RT_DEFAULT;
+    let rt_first = rng.chance(1, 2);
+    if rt_first {
+        apply_rt(&mut env, &mut cur_rt, &spec.rt);
+    }
     let loader_first = rng.chance(1, 2);
     if loader_first && spec.loader != 0 {
         env.set_loader(loader_fn(spec.loader, false));
     }
-    let mut items: Vec<(usize, usize)> = spec.contents.iter().map(|(a, b)| (*a, *b)).collect();
+    let mut items: Vec<(usize, (usize, Lt))> = spec.contents.iter().map(|(a, b)| (*a, *b)).collect();
     if rng.chance(1, 2) {
         items.reverse();
     }
-    for (n, s) in items {
-        let r = if rng.chance(1, 2) {
+    for (n, (s, lt)) in items {
+        apply_lt(&mut env, &mut cur_lt, &lt);
+        let _ = if rng.chance(1, 2) {
             env.add_template(NAMES[n], SOURCES[s])
         } else {
             env.add_template_owned(NAMES[n].to_string(), SOURCES[s].to_string())
         };
-        if r.is_err() {
-            // contents only ever hold sources that compiled; reported through the comparison
-        }
     }
+    apply_lt(&mut env, &mut cur_lt, &spec.lt);
     for k in 0..2 {
         if spec.filters[k] != initial_spec().filters[k] {
             set_filter(&mut env, k, spec.filters[k]);
@@ -215,6 +438,9 @@ fn build_fresh(spec: &Spec, rng: &mut Rng) -> Environment<'static> {
     }
     if !loader_first && spec.loader != 0 {
         env.set_loader(loader_fn(spec.loader, false));
+    }
+    if !rt_first {
+        apply_rt(&mut env, &mut cur_rt, &spec.rt);
     }
     env
 }
@@ -248,8 +474,12 @@ fn err_code(e: &Error) -> String {
     }
 }
 
+fn src_index(src: &str) -> Option<usize> {
+    SOURCES.iter().position(|s| *s == src)
+}
+
 fn src_code(src: &str) -> String {
-    match SOURCES.iter().position(|s| *s == src) {
+    match src_index(src) {
         Some(i) => format!("s{}", i),
         None => format!("s?{}", hex(src.as_bytes())),
     }
@@ -258,14 +488,18 @@ fn src_code(src: &str) -> String {
 fn render_outcome(r: Result<String, Error>) -> String {
     match r {
         Ok(s) => format!("ok:{}", s),
-        Result::Err(e) => format!("err:{:?}:{}", e.kind(), e.name().unwrap_or("-")),
+        Result::Err(e) => {
+            // with debug on the error carries the template source for `display_debug_info`
+            let dbg = !e.display_debug_info().to_string().is_empty();
+            format!("err:{:?}:{}:{}", e.kind(), e.name().unwrap_or("-"), if dbg { "dbg" } else { "nodbg" })
+        }
     }
 }
 
-/// get_template(n).render(ctx) → (get result code, render outcome)
-fn get_render(env: &Environment<'static>, n: usize, c: usize) -> (String, String) {
-    let r = guarded(|| match env.get_template(NAMES[n]) {
-        Ok(t) => (src_code(t.source()), render_outcome(t.render(make_ctx(c)))),
+/// get_template(n).render(ctx) → (get result code incl. fingerprint, render outcome)
+fn get_render_named(env: &Environment<'static>, name: &str, c: usize) -> (String, String) {
+    let r = guarded(|| match env.get_template(name) {
+        Ok(t) => (format!("{}#{}", src_code(t.source()), fingerprint(&t)), render_outcome(t.render(make_ctx(c)))),
         Result::Err(e) => (err_code(&e), render_outcome(Result::Err(e))),
     });
     match r {
@@ -273,29 +507,87 @@ fn get_render(env: &Environment<'static>, n: usize, c: usize) -> (String, String
         Result::Err(m) => ("panic".into(), format!("panic:{}", m)),
     }
 }
+fn get_render(env: &Environment<'static>, n: usize, c: usize) -> (String, String) {
+    get_render_named(env, NAMES[n], c)
+}
 
 fn listing(env: &Environment<'static>) -> String {
     let mut v: Vec<String> = env
         .templates()
         .map(|(name, t)| {
-            let n = NAMES.iter().position(|x| *x == name).map(|i| i.to_string()).unwrap_or("?".into());
-            format!("{}:{}", n, &src_code(t.source())[1..])
+            let n = NAMES.iter().position(|x| *x == name).map(|i| i.to_string()).unwrap_or(format!("?{}", hex(name.as_bytes())));
+            format!("{}:{}#{}", n, &src_code(t.source())[1..], fingerprint(&t))
         })
         .collect();
     v.sort();
     v.join(",")
 }
 
-fn probe(env: &Environment<'static>, src: &str) -> Result<String, Error> {
-    env.render_str(src, context! {})
+fn strip_fmt(s: &str) -> &str {
+    s.strip_prefix('\u{ab}').and_then(|x| x.strip_suffix('\u{bb}')).unwrap_or(s)
 }
 
-fn registries(env: &Environment<'static>) -> String {
+/// the load-time and run-time configuration as far as getters and probes show it
+fn observed_config(env: &Environment<'static>) -> (Lt, Rt) {
+    let syn = {
+        let d = format!("{:?}", env.syntax());
+        (0..3u8).find(|v| format!("{:?}", syntax_of(*v)) == d).unwrap_or(9)
+    };
+    let ae = {
+        let sig = |name: &str| -> String {
+            match env.template_from_named_str(name, "") {
+                Ok(t) => format!("{:?}", minijinja::machinery::get_compiled_template(&t).initial_auto_escape),
+                Result::Err(_) => "?".into(),
+            }
+        };
+        let s = (sig("a"), sig("b.html"));
+        (0..4u8).find(|v| (format!("{:?}", auto_escape_of(*v, "a")), format!("{:?}", auto_escape_of(*v, "b.html"))) == s).unwrap_or(9)
+    };
+    let lt: Lt = [env.trim_blocks() as u8, env.lstrip_blocks() as u8, env.keep_trailing_newline() as u8, syn, ae];
+    let undefined = match env.undefined_behavior() {
+        UndefinedBehavior::Lenient => 0,
+        UndefinedBehavior::Strict => 1,
+        UndefinedBehavior::Chainable => 2,
+        UndefinedBehavior::SemiStrict => 3,
+        _ => 9,
+    };
+    // probes run on a clone without fuel so that a tiny budget does not hide the other settings
+    let mut p = env.clone();
+    p.set_fuel(None);
+    let formatter = match p.render_str(&expr_tpl(syn, "1"), context! {}) {
+        Ok(s) if s == "1" => 0,
+        Ok(s) if s == "\u{ab}1\u{bb}" => 1,
+        _ => 9,
+    };
+    let recursion = RECURSION_LIMITS.iter().position(|x| *x == env.recursion_limit()).map(|x| x as u8).unwrap_or(9);
+    let fuel = FUELS.iter().position(|x| *x == env.fuel()).map(|x| x as u8).unwrap_or(9);
+    let path_join = match p.render_str(&include_tpl(syn, "probe-x"), context! {}) {
+        Result::Err(e) if e.detail().map(|d| d.contains("probe-y")).unwrap_or(false) => 1,
+        Result::Err(e) if e.detail().map(|d| d.contains("probe-x")).unwrap_or(false) => 0,
+        _ => 9,
+    };
+    let unknown_method = match p.render_str(&expr_tpl(syn, "'x'.nomethod()"), context! {}) {
+        Ok(s) if strip_fmt(&s) == "M(nomethod)" => 1,
+        Result::Err(e) if e.kind() == ErrorKind::UnknownMethod => 0,
+        _ => 9,
+    };
+    let rt: Rt = [undefined, formatter, env.debug() as u8, recursion, fuel, path_join, unknown_method];
+    (lt, rt)
+}
+
+fn registries(env: &Environment<'static>, syn: u8) -> String {
+    let mut p = env.clone();
+    p.set_fuel(None);
+    p.set_undefined_behavior(UndefinedBehavior::Lenient);
+    let probe = |src: String| p.render_str(&src, context! {});
     let mut out = Vec::new();
     for name in FILTER_NAMES {
-        let code = match probe(env, &format!("{{{{ 'x'|{} }}}}", name)) {
-            Ok(s) if s == "X" => "B".to_string(),
-            Ok(s) if s.starts_with('F') && s.ends_with("(x)") => s[1..s.len() - 3].to_string(),
+        let code = match probe(expr_tpl(syn, &format!("'x'|{}", name))) {
+            Ok(s) if strip_fmt(&s) == "X" => "B".to_string(),
+            Ok(s) if strip_fmt(&s).starts_with('F') && strip_fmt(&s).ends_with("(x)") => {
+                let t = strip_fmt(&s);
+                t[1..t.len() - 3].to_string()
+            }
             Ok(s) => format!("?{}", hex(s.as_bytes())),
             Result::Err(e) if e.kind() == ErrorKind::UnknownFilter => "-".into(),
             Result::Err(e) => format!("!{:?}", e.kind()),
@@ -303,12 +595,14 @@ fn registries(env: &Environment<'static>) -> String {
         out.push(code);
     }
     for name in TEST_NAMES {
-        let code = match probe(env, &format!("{{{{ 3 is {} }}}}{{{{ 4 is {} }}}}", name, name)) {
-            Ok(s) if s == "TrueFalse" => "B".to_string(),
-            Ok(s) if s == "TrueTrue" => "0".to_string(),
-            Ok(s) if s == "FalseFalse" => "1".to_string(),
-            Ok(s) if s == "FalseTrue" => "2".to_string(),
-            Ok(s) => format!("?{}", hex(s.as_bytes())),
+        let code = match probe(expr_tpl(syn, &format!("[3 is {}, 4 is {}]|join", name, name))) {
+            Ok(s) => match strip_fmt(&s) {
+                "truefalse" | "TrueFalse" => "B".to_string(),
+                "truetrue" | "TrueTrue" => "0".to_string(),
+                "falsefalse" | "FalseFalse" => "1".to_string(),
+                "falsetrue" | "FalseTrue" => "2".to_string(),
+                other => format!("?{}", hex(other.as_bytes())),
+            },
             Result::Err(e) if e.kind() == ErrorKind::UnknownTest => "-".into(),
             Result::Err(e) => format!("!{:?}", e.kind()),
         };
@@ -332,18 +626,23 @@ fn registries(env: &Environment<'static>) -> String {
 struct Obs {
     gets: Vec<String>,
     renders: Vec<String>,
+    probes: Vec<String>,
     listing: String,
     regs: String,
+    cfg: String,
     repeat_fail: Option<String>,
 }
 
 impl Obs {
     fn model_part(&self) -> String {
-        let g: Vec<String> = (0..4).map(|i| format!("{}={}", NAMES[i], self.gets[i])).collect();
-        format!("{};L={};R={}", g.join(","), self.listing, self.regs)
+        let mut g: Vec<String> = (0..NN).map(|i| format!("{}={}", i, self.gets[i])).collect();
+        for (i, p) in self.probes.iter().enumerate() {
+            g.push(format!("{}={}", NN + i, p));
+        }
+        format!("{};L={};R={};C={}", g.join(","), self.listing, self.regs, self.cfg)
     }
     fn diff(&self, other: &Obs) -> Option<String> {
-        for i in 0..4 {
+        for i in 0..NN {
             if self.gets[i] != other.gets[i] || self.renders[i] != other.renders[i] {
                 return Some(format!(
                     "{}: {} {} vs {} {}",
@@ -351,11 +650,17 @@ impl Obs {
                 ));
             }
         }
+        if self.probes != other.probes {
+            return Some(format!("lookups of {:?}: {:?} vs {:?}", PROBE_NAMES, self.probes, other.probes));
+        }
         if self.listing != other.listing {
             return Some(format!("templates() {} vs {}", self.listing, other.listing));
         }
         if self.regs != other.regs {
             return Some(format!("registries {} vs {}", self.regs, other.regs));
+        }
+        if self.cfg != other.cfg {
+            return Some(format!("configuration {} vs {}", self.cfg, other.cfg));
         }
         None
     }
@@ -376,7 +681,7 @@ fn observe(env: &Environment<'static>, via_clone: bool) -> Obs {
     let mut gets = Vec::new();
     let mut renders = Vec::new();
     let mut repeat_fail = None;
-    for n in 0..4 {
+    for n in 0..NN {
         let (g, r) = get_render(o, n, 0);
         let (g2, r2) = get_render(o, n, 0);
         if (g.clone(), r.clone()) != (g2.clone(), r2.clone()) && repeat_fail.is_none() {
@@ -385,9 +690,18 @@ fn observe(env: &Environment<'static>, via_clone: bool) -> Obs {
         gets.push(g);
         renders.push(r);
     }
-    let regs = registries(o);
+    // names are never normalised: these are different names
+    let probes: Vec<String> = PROBE_NAMES
+        .iter()
+        .map(|p| match o.get_template(p) {
+            Ok(t) => format!("{}#{}", src_code(t.source()), fingerprint(&t)),
+            Result::Err(e) => err_code(&e),
+        })
+        .collect();
+    let (lt, rt) = observed_config(o);
+    let regs = registries(o, lt[3]);
     LOGGING.store(was, Ordering::Relaxed);
-    Obs { gets, renders, listing, regs, repeat_fail }
+    Obs { gets, renders, probes, listing, regs, cfg: format!("{}/{}", lt_code(&lt), rt_code(&rt)), repeat_fail }
 }
 
 const JUNK: [&str; 6] = [
@@ -435,10 +749,14 @@ enum Op {
     Rm { e: usize, n: usize },
     Cl { e: usize },
     Sl { e: usize, l: usize },
+    Phase { v: usize },
     RegAdd { kind: u8, e: usize, k: usize, v: Reg },
     RegRm { kind: u8, e: usize, k: usize },
+    SetLt { e: usize, f: usize, v: u8 },
+    SetRt { e: usize, f: usize, v: u8 },
     Clone { e: usize },
     Render { e: usize, n: usize, c: usize },
+    Handle { e: usize, n: usize },
     Junk { e: usize, k: usize },
     Threads { e: usize, k: u64 },
 }
@@ -447,20 +765,29 @@ fn reg_code(v: Reg) -> String {
     v.code()
 }
 
+fn log_str(log: Option<&[usize]>) -> String {
+    let l = log.unwrap_or(&[]);
+    if l.is_empty() {
+        "-".to_string()
+    } else {
+        l.iter().map(|x| x.to_string()).collect::<Vec<_>>().join(",")
+    }
+}
+
 fn op_token(op: &Op, log: Option<&[usize]>) -> String {
     match op {
         Op::Add { owned, e, n, s } => format!("{}:{}:{}:{}", if *owned { "ao" } else { "ab" }, e, n, s),
         Op::Rm { e, n } => format!("rm:{}:{}", e, n),
         Op::Cl { e } => format!("cl:{}", e),
         Op::Sl { e, l } => format!("sl:{}:{}", e, l),
+        Op::Phase { v } => format!("fl:{}", v),
         Op::RegAdd { kind, e, k, v } => format!("a{}:{}:{}:{}", *kind as char, e, k, reg_code(*v)),
         Op::RegRm { kind, e, k } => format!("r{}:{}:{}", *kind as char, e, k),
+        Op::SetLt { e, f, v } => format!("lt:{}:{}:{}", e, f, v),
+        Op::SetRt { e, f, v } => format!("ru:{}:{}:{}", e, f, v),
         Op::Clone { e } => format!("cn:{}", e),
-        Op::Render { e, n, c } => {
-            let l = log.unwrap_or(&[]);
-            let ls = if l.is_empty() { "-".to_string() } else { l.iter().map(|x| x.to_string()).collect::<Vec<_>>().join(",") };
-            format!("r:{}:{}:{}:{}", e, n, c, ls)
-        }
+        Op::Render { e, n, c } => format!("r:{}:{}:{}:{}", e, n, c, log_str(log)),
+        Op::Handle { e, n } => format!("hd:{}:{}:{}", e, n, log_str(log)),
         Op::Junk { e, k } => format!("jk:{}:{}", e, k),
         Op::Threads { e, k } => format!("th:{}:{}", e, k),
     }
@@ -476,30 +803,52 @@ fn parse_op(tok: &str) -> Option<Op> {
             x => x.parse().ok().map(Reg::Custom),
         }
     };
+    let name = |i: usize| -> Option<usize> { num(i).filter(|n| *n < NN) };
     Some(match f[0] {
-        "ab" | "ao" => Op::Add { owned: f[0] == "ao", e: num(1)?, n: num(2)?, s: num(3)? },
-        "rm" => Op::Rm { e: num(1)?, n: num(2)? },
+        "ab" | "ao" => Op::Add { owned: f[0] == "ao", e: num(1)?, n: name(2)?, s: num(3).filter(|s| *s < NS)? },
+        "rm" => Op::Rm { e: num(1)?, n: name(2)? },
         "cl" => Op::Cl { e: num(1)? },
-        "sl" => Op::Sl { e: num(1)?, l: num(2)? },
-        "af" | "at" | "ag" => Op::RegAdd { kind: f[0].as_bytes()[1], e: num(1)?, k: num(2)?, v: reg(f.get(3)?)? },
-        "rf" | "rt" | "rg" => Op::RegRm { kind: f[0].as_bytes()[1], e: num(1)?, k: num(2)? },
+        "sl" => Op::Sl { e: num(1)?, l: num(2).filter(|l| (1..=6).contains(l))? },
+        "fl" => Op::Phase { v: num(1)?.min(1) },
+        "af" | "at" | "ag" => Op::RegAdd { kind: f[0].as_bytes()[1], e: num(1)?, k: num(2).filter(|k| *k < 2)?, v: reg(f.get(3)?)? },
+        "rf" | "rt" | "rg" => Op::RegRm { kind: f[0].as_bytes()[1], e: num(1)?, k: num(2).filter(|k| *k < 2)? },
+        "lt" => {
+            let fld = num(2).filter(|x| *x < 5)?;
+            Op::SetLt { e: num(1)?, f: fld, v: num(3).filter(|v| (*v as u8) < LT_RANGE[fld])? as u8 }
+        }
+        "ru" => {
+            let fld = num(2).filter(|x| *x < 7)?;
+            Op::SetRt { e: num(1)?, f: fld, v: num(3).filter(|v| (*v as u8) < RT_RANGE[fld])? as u8 }
+        }
         "cn" => Op::Clone { e: num(1)? },
-        "r" => Op::Render { e: num(1)?, n: num(2)?, c: num(3)? },
+        "r" => Op::Render { e: num(1)?, n: name(2)?, c: num(3)? },
+        "hd" => Op::Handle { e: num(1)?, n: name(2)? },
         "jk" => Op::Junk { e: num(1)?, k: num(2)? },
         "th" => Op::Threads { e: num(1)?, k: f.get(2)?.parse().ok()? },
         _ => return None,
     })
 }
 
+/// what the generator remembers of an environment in order to aim: its loader and what it last
+/// added under each name (re-adding the very same source, or what the loader would deliver, is the
+/// interesting case for "a re-add is a load")
+#[derive(Clone, Default)]
+struct GenEnv {
+    loader: usize,
+    last: BTreeMap<usize, usize>,
+}
+
 fn gen_history(rng: &mut Rng, with_threads: bool) -> Vec<Op> {
     let len = 1 + rng.below(30) as usize;
-    let mut live = 1usize;
+    let mut gens: Vec<GenEnv> = vec![GenEnv::default()];
     let mut ops = Vec::new();
-    // three flavours: store-heavy, registry-heavy, mixed
-    let flavour = rng.below(4);
+    // flavours: store-heavy, registry-heavy, configuration-heavy, mixed
+    let flavour = rng.below(5);
     // a prelude that makes successful renders likely: a loader and the custom filter/test
     if rng.chance(2, 3) {
-        ops.push(Op::Sl { e: 0, l: 1 + rng.below(5) as usize });
+        let l = 1 + rng.below(6) as usize;
+        gens[0].loader = l;
+        ops.push(Op::Sl { e: 0, l });
     }
     if rng.chance(2, 3) {
         ops.push(Op::RegAdd { kind: b'f', e: 0, k: 0, v: Reg::Custom(rng.below(2) as usize) });
@@ -509,24 +858,48 @@ fn gen_history(rng: &mut Rng, with_threads: bool) -> Vec<Op> {
     }
     ops.truncate(len);
     for _ in ops.len()..len {
+        let live = gens.len();
         let e = rng.below(live as u64) as usize;
-        let n = rng.below(4) as usize;
+        let n = rng.below(NN as u64) as usize;
         let w = rng.below(100);
-        let (t_add, t_rm, t_cl, t_sl, t_reg, t_cn, t_r) = match flavour {
-            0 => (30, 40, 43, 55, 58, 61, 94),
-            1 => (14, 20, 22, 28, 62, 66, 94),
-            _ => (24, 32, 35, 45, 57, 61, 94),
+        //                 add  rm  cl  sl  reg  lt  rt  cn  render hd
+        let t: [u64; 10] = match flavour {
+            0 => [26, 34, 37, 46, 49, 56, 60, 63, 90, 93],
+            1 => [12, 17, 19, 24, 54, 58, 62, 66, 90, 93],
+            2 => [20, 24, 26, 31, 34, 56, 68, 72, 90, 93],
+            _ => [20, 27, 30, 38, 48, 57, 63, 67, 90, 93],
         };
-        let op = if w < t_add {
-            let s = if rng.chance(1, 5) { *rng.pick(&[8usize, 9]) } else { rng.below(SOURCES.len() as u64) as usize };
-            Op::Add { owned: rng.chance(1, 2), e, n, s }
-        } else if w < t_rm {
+        let op = if w < t[0] {
+            let g = &gens[e];
+            let s = if rng.chance(1, 4) && g.last.contains_key(&n) {
+                g.last[&n] // the very same source again
+            } else if rng.chance(1, 6) && g.loader != 0 {
+                match LOADERS[if g.loader == 6 { 7 } else { g.loader }][n] {
+                    Src(s) => s, // what the loader delivers (possibly memoised already)
+                    _ => rng.below(NS as u64) as usize,
+                }
+            } else if rng.chance(1, 6) {
+                *rng.pick(&[8usize, 9])
+            } else {
+                rng.below(NS as u64) as usize
+            };
+            gens[e].last.insert(n, s);
+            Op::Add { owned: rng.chance(3, 5), e, n, s }
+        } else if w < t[1] {
+            gens[e].last.remove(&n);
             Op::Rm { e, n }
-        } else if w < t_cl {
+        } else if w < t[2] {
+            gens[e].last.clear();
             Op::Cl { e }
-        } else if w < t_sl {
-            Op::Sl { e, l: 1 + rng.below(5) as usize }
-        } else if w < t_reg {
+        } else if w < t[3] {
+            if rng.chance(1, 5) {
+                Op::Phase { v: rng.below(2) as usize }
+            } else {
+                let l = 1 + rng.below(6) as usize;
+                gens[e].loader = l;
+                Op::Sl { e, l }
+            }
+        } else if w < t[4] {
             let kind = *rng.pick(&[b'f', b't', b'g']);
             let k = rng.below(2) as usize;
             if rng.chance(2, 5) {
@@ -539,51 +912,79 @@ fn gen_history(rng: &mut Rng, with_threads: bool) -> Vec<Op> {
                 };
                 Op::RegAdd { kind, e, k, v }
             }
-        } else if w < t_cn {
+        } else if w < t[5] {
+            let f = rng.below(5) as usize;
+            Op::SetLt { e, f, v: rng.below(LT_RANGE[f] as u64) as u8 }
+        } else if w < t[6] {
+            let f = rng.below(7) as usize;
+            Op::SetRt { e, f, v: rng.below(RT_RANGE[f] as u64) as u8 }
+        } else if w < t[7] {
             if live < 3 {
-                live += 1;
+                let g = gens[e].clone();
+                gens.push(g);
                 Op::Clone { e }
             } else {
                 Op::Rm { e, n }
             }
-        } else if w < t_r {
+        } else if w < t[8] {
             let c = if rng.chance(3, 4) { 0 } else { 1 + rng.below(2) as usize };
             Op::Render { e, n, c }
+        } else if w < t[9] {
+            Op::Handle { e, n }
         } else {
             Op::Junk { e, k: rng.below(8) as usize }
         };
         ops.push(op);
     }
     if with_threads {
-        let e = rng.below(live as u64) as usize;
         if ops.len() == 30 {
-            ops.pop();
+            if let Some(Op::Clone { .. }) = ops.pop() {
+                gens.pop();
+            }
         }
-        ops.push(Op::Threads { e: e.min(ops.iter().filter(|o| matches!(o, Op::Clone { .. })).count()), k: rng.below(1 << 20) });
+        let e = rng.below(gens.len() as u64) as usize;
+        ops.push(Op::Threads { e, k: rng.below(1 << 20) });
     }
     ops
 }
 
-/// 8 threads render concurrently from the shared environment, interleaved with failing compiles
-/// and failing renders on the same threads; every result must equal the single threaded result of
-/// a fresh environment with the same contents.
-fn contents_of(env: &Environment<'static>) -> BTreeMap<usize, usize> {
+/// contents of a reference environment after lookups: entries it had keep their recorded load-time
+/// configuration, entries memoised by the lookups were compiled under the current one
+fn contents_after(env: &Environment<'static>, before: &BTreeMap<usize, (usize, Lt)>, lt: &Lt) -> BTreeMap<usize, (usize, Lt)> {
     let mut newc = BTreeMap::new();
     for (name, t) in env.templates() {
-        if let (Some(ni), Some(si)) = (NAMES.iter().position(|x| *x == name), SOURCES.iter().position(|x| *x == t.source())) {
-            newc.insert(ni, si);
+        if let (Some(ni), Some(si)) = (NAMES.iter().position(|x| *x == name), src_index(t.source())) {
+            match before.get(&ni) {
+                Some(old) if old.0 == si => {
+                    newc.insert(ni, *old);
+                }
+                _ => {
+                    newc.insert(ni, (si, *lt));
+                }
+            }
         }
     }
     newc
 }
 
+/// what the real environment itself lists: name -> "s<src>#<fingerprint>"
+fn shown(env: &Environment<'static>) -> BTreeMap<usize, String> {
+    let mut m = BTreeMap::new();
+    for (name, t) in env.templates() {
+        if let Some(ni) = NAMES.iter().position(|x| *x == name) {
+            m.insert(ni, format!("{}#{}", src_code(t.source()), fingerprint(&t)));
+        }
+    }
+    m
+}
+
 /// Returns the first failure and the contents the environment must have afterwards (every name has
 /// been requested at least once: the phase ends with a sweep over all names on the main thread).
-fn threads_phase(live: &Live, k: u64, frng: &mut Rng) -> (Option<String>, BTreeMap<usize, usize>) {
+fn threads_phase(live: &Live, k: u64, frng: &mut Rng) -> (Option<String>, BTreeMap<usize, (usize, Lt)>) {
     let was = LOGGING.swap(false, Ordering::Relaxed);
     let fresh = build_fresh(&live.spec, frng);
     let mut expected: Vec<Vec<(String, String)>> = Vec::new();
-    for n in 0..4 {
+    for n in 0..NN {
         expected.push((0..3).map(|c| get_render(&fresh, n, c)).collect());
     }
     let env = &live.env;
@@ -600,7 +1001,7 @@ fn threads_phase(live: &Live, k: u64, frng: &mut Rng) -> (Option<String>, BTreeM
                             if rng.chance(1, 3) {
                                 let _ = junk(env, rng.below(8) as usize);
                             }
-                            let n = rng.below(4) as usize;
+                            let n = rng.below(NN as u64) as usize;
                             let c = rng.below(3) as usize;
                             let got = get_render(env, n, c);
                             if got != expected[n][c] {
@@ -618,18 +1019,28 @@ fn threads_phase(live: &Live, k: u64, frng: &mut Rng) -> (Option<String>, BTreeM
         hs.into_iter().flat_map(|h| h.join().unwrap_or_else(|_| vec!["thread panicked".into()])).collect()
     });
     let mut fails = fails;
-    for n in 0..4 {
+    for n in 0..NN {
         let got = get_render(env, n, 0);
         if got != expected[n][0] {
             fails.push(format!("after threads {}: {} {} vs fresh {} {}", NAMES[n], got.0, got.1, expected[n][0].0, expected[n][0].1));
         }
     }
-    let newc = contents_of(&fresh);
+    let newc = contents_after(&fresh, &live.spec.contents, &live.spec.lt);
     LOGGING.store(was, Ordering::Relaxed);
     (fails.into_iter().next(), newc)
 }
 
+fn op_target(op: &Op) -> Option<usize> {
+    match op {
+        Op::Add { e, .. } | Op::Rm { e, .. } | Op::Cl { e } | Op::Sl { e, .. } | Op::RegAdd { e, .. } | Op::RegRm { e, .. }
+        | Op::SetLt { e, .. } | Op::SetRt { e, .. } | Op::Clone { e } | Op::Render { e, .. } | Op::Handle { e, .. }
+        | Op::Junk { e, .. } | Op::Threads { e, .. } => Some(*e),
+        Op::Phase { .. } => None,
+    }
+}
+
 fn run_history(ops: &[Op], hseed: u64) -> (String, String, String, String) {
+    PHASE.store(0, Ordering::SeqCst);
     let mut envs: Vec<Live> = vec![Live { env: new_env(), spec: initial_spec(), last_obs: None }];
     let mut frng = Rng::new(hseed ^ 0x5151);
     let mut case_toks = Vec::new();
@@ -643,16 +1054,15 @@ fn run_history(ops: &[Op], hseed: u64) -> (String, String, String, String) {
         let mut log_used: Option<Vec<usize>> = None;
         let mut failed_insert_env: Option<usize> = None;
         let mut note = String::from("-");
-        let target = match op {
-            Op::Add { e, .. } | Op::Rm { e, .. } | Op::Cl { e } | Op::Sl { e, .. } | Op::RegAdd { e, .. }
-            | Op::RegRm { e, .. } | Op::Clone { e } | Op::Render { e, .. } | Op::Junk { e, .. } | Op::Threads { e, .. } => *e,
-        };
-        if target >= envs.len() {
-            case_toks.push(op_token(op, None));
-            impl_steps.push("bad-env".to_string());
-            oracle_steps.push("=".to_string());
-            notes.push("-".to_string());
-            continue;
+        let target = op_target(op);
+        if let Some(t) = target {
+            if t >= envs.len() {
+                case_toks.push(op_token(op, None));
+                impl_steps.push("bad-env".to_string());
+                oracle_steps.push("=".to_string());
+                notes.push("-".to_string());
+                continue;
+            }
         }
         let opres: String = match op {
             Op::Add { owned, e, n, s } => {
@@ -666,8 +1076,9 @@ fn run_history(ops: &[Op], hseed: u64) -> (String, String, String, String) {
                 });
                 match r {
                     Ok(Ok(())) => {
-                        l.spec.contents.insert(*n, *s);
-                        l.spec.pinned.insert(*n, *s);
+                        // a (re-)add is a load: the template is now compiled under the current configuration
+                        l.spec.contents.insert(*n, (*s, l.spec.lt));
+                        l.spec.pinned.remove(n);
                         "ok".into()
                     }
                     Ok(Result::Err(err)) => {
@@ -695,6 +1106,10 @@ fn run_history(ops: &[Op], hseed: u64) -> (String, String, String, String) {
                 let l = &mut envs[*e];
                 l.env.set_loader(loader_fn(*table, true));
                 l.spec.loader = *table;
+                "ok".into()
+            }
+            Op::Phase { v } => {
+                PHASE.store(*v, Ordering::SeqCst);
                 "ok".into()
             }
             Op::RegAdd { kind, e, k, v } => {
@@ -733,6 +1148,18 @@ fn run_history(ops: &[Op], hseed: u64) -> (String, String, String, String) {
                 }
                 "ok".into()
             }
+            Op::SetLt { e, f, v } => {
+                let l = &mut envs[*e];
+                apply_lt_field(&mut l.env, *f, *v);
+                l.spec.lt[*f] = *v;
+                "ok".into()
+            }
+            Op::SetRt { e, f, v } => {
+                let l = &mut envs[*e];
+                apply_rt_field(&mut l.env, *f, *v);
+                l.spec.rt[*f] = *v;
+                "ok".into()
+            }
             Op::Clone { e } => {
                 if envs.len() >= 3 {
                     "full".into()
@@ -744,7 +1171,7 @@ fn run_history(ops: &[Op], hseed: u64) -> (String, String, String, String) {
             }
             Op::Render { e, n, c } => {
                 let l = &mut envs[*e];
-                // the same render on a fresh environment with the pre-state contents decides what the
+                // the same render on a fresh environment with the pre-state value decides what the
                 // environment must contain afterwards (which lookups get memoised)
                 let fresh = build_fresh(&l.spec, &mut frng);
                 FRESH_LOG.lock().unwrap().clear();
@@ -758,27 +1185,78 @@ fn run_history(ops: &[Op], hseed: u64) -> (String, String, String, String) {
                 } else if got_log != want_log {
                     fails.push(format!("FAILfresh{{render {}: loader consulted for {:?}, fresh environment {:?}}}", NAMES[*n], got_log, want_log));
                 }
-                // new contents = what the fresh environment holds now
-                let newc = contents_of(&fresh);
-                for (k, v) in &newc {
-                    l.spec.pinned.entry(*k).or_insert(*v);
-                }
-                l.spec.contents = newc;
+                let was = LOGGING.swap(false, Ordering::Relaxed);
+                l.spec.contents = contents_after(&fresh, &l.spec.contents, &l.spec.lt);
+                LOGGING.store(was, Ordering::Relaxed);
                 log_used = Some(got_log);
                 note = if got.1.starts_with("ok:") { "ok".to_string() } else { got.1.splitn(3, ':').take(2).collect::<Vec<_>>().join(":") };
                 got.0
             }
+            Op::Handle { e, n } => {
+                // a handle obtained from the environment stays what it is while a CLONE of the
+                // environment is modified (the borrow checker forbids modifying the environment itself)
+                let l = &mut envs[*e];
+                let fresh = build_fresh(&l.spec, &mut frng);
+                FRESH_LOG.lock().unwrap().clear();
+                let want = get_render(&fresh, *n, 0);
+                let want_log = std::mem::take(&mut *FRESH_LOG.lock().unwrap());
+                REAL_LOG.lock().unwrap().clear();
+                let res;
+                {
+                    let handle = l.env.get_template(NAMES[*n]);
+                    res = match &handle {
+                        Ok(t) => format!("{}#{}", src_code(t.source()), fingerprint(t)),
+                        Result::Err(e) => err_code(e),
+                    };
+                    let first = match &handle {
+                        Ok(t) => render_outcome(t.render(make_ctx(0))),
+                        Result::Err(_) => String::new(),
+                    };
+                    let got_log = std::mem::take(&mut *REAL_LOG.lock().unwrap());
+                    let was = LOGGING.swap(false, Ordering::Relaxed);
+                    if let Ok(t) = &handle {
+                        if (res.clone(), first.clone()) != want {
+                            fails.push(format!("FAILfresh{{handle {}: {} {} vs fresh {} {}}}", NAMES[*n], res, first, want.0, want.1));
+                        } else if got_log != want_log {
+                            fails.push(format!("FAILfresh{{handle {}: loader consulted for {:?}, fresh environment {:?}}}", NAMES[*n], got_log, want_log));
+                        }
+                        let before = (fingerprint(t), first.clone());
+                        let mut c = l.env.clone();
+                        c.remove_template(NAMES[*n]);
+                        let _ = c.add_template_owned(NAMES[*n].to_string(), SOURCES[(*n + 3) % 8].to_string());
+                        c.set_trim_blocks(!c.trim_blocks());
+                        c.set_auto_escape_callback(|_| AutoEscape::Html);
+                        let _ = c.add_template(NAMES[*n], SOURCES[(*n + 1) % 8]);
+                        let mid = (fingerprint(t), render_outcome(t.render(make_ctx(0))));
+                        c.clear_templates();
+                        c.set_loader(loader_fn(5, false));
+                        let _ = c.get_template(NAMES[*n]).map(|t| t.render(make_ctx(0)));
+                        drop(c);
+                        let after = (fingerprint(t), render_outcome(t.render(make_ctx(0))));
+                        if before != mid || before != after {
+                            fails.push(format!("FAILhandle{{{}: {:?} then {:?} then {:?}}}", NAMES[*n], before, mid, after));
+                        }
+                    }
+                    LOGGING.store(was, Ordering::Relaxed);
+                    log_used = Some(got_log);
+                }
+                let was = LOGGING.swap(false, Ordering::Relaxed);
+                l.spec.contents = contents_after(&fresh, &l.spec.contents, &l.spec.lt);
+                LOGGING.store(was, Ordering::Relaxed);
+                res
+            }
             Op::Junk { e, k } => {
-                // the outcome of a failing compile/render is itself history independent
+                // the outcome of a failing compile/render is a function of the configuration only
                 let res = junk(&envs[*e].env, *k);
+                let key = (*k, envs[*e].spec.lt, envs[*e].spec.rt);
                 let mut seen = JUNK_SEEN.lock().unwrap();
-                match seen.get(k) {
+                match seen.get(&key) {
                     Some(first) if *first != res => {
                         fails.push(format!("FAILrepeat{{junk {} gave {} earlier and {} now}}", k, first, res));
                     }
                     Some(_) => {}
                     None => {
-                        seen.insert(*k, res);
+                        seen.insert(key, res);
                     }
                 }
                 "jk".into()
@@ -788,11 +1266,7 @@ fn run_history(ops: &[Op], hseed: u64) -> (String, String, String, String) {
                 if let Some(f) = f {
                     fails.push(format!("FAILthreads{{{}}}", f));
                 }
-                let l = &mut envs[*e];
-                for (k, v) in &newc {
-                    l.spec.pinned.entry(*k).or_insert(*v);
-                }
-                l.spec.contents = newc;
+                envs[*e].spec.contents = newc;
                 "ok".into()
             }
         };
@@ -805,15 +1279,17 @@ fn run_history(ops: &[Op], hseed: u64) -> (String, String, String, String) {
             if let Some(rf) = &obs.repeat_fail {
                 fails.push(format!("FAILrepeat{{env{} {}}}", i, rf));
             }
-            // (2) fresh environment with the same final contents
+            // (2) fresh environment with the same value
             let fresh = build_fresh(&l.spec, &mut frng);
             let fobs = observe(&fresh, false);
             if let Some(d) = obs.diff(&fobs) {
                 fails.push(format!("FAILfresh{{env{} {}}}", i, d));
             }
-            // failed insert is a no-op / isolation of the other environments
+            // failed insert is a no-op / isolation of the other environments (a change of the outside
+            // world — the loader phase — may change what unloaded names resolve to)
             if let Some(prev) = &l.last_obs {
-                let must_be_same = failed_insert_env == Some(i) || (i != target && !matches!(op, Op::Clone { .. }));
+                let must_be_same = failed_insert_env == Some(i)
+                    || (target.is_some() && Some(i) != target && !matches!(op, Op::Clone { .. }));
                 if must_be_same {
                     if let Some(d) = prev.diff(&obs) {
                         let site = if failed_insert_env == Some(i) { "failed-insert" } else { "isolation" };
@@ -821,12 +1297,15 @@ fn run_history(ops: &[Op], hseed: u64) -> (String, String, String, String) {
                     }
                 }
             }
-            // stickiness: everything the environment held keeps its source
-            for (n, s) in &l.spec.pinned {
-                let want = format!("s{}", s);
-                if obs.gets[*n] != want {
+            // stickiness: everything the environment itself listed keeps source and compilation until
+            // it is removed, re-added or cleared
+            for (n, want) in &l.spec.pinned {
+                if &obs.gets[*n] != want {
                     fails.push(format!("FAILsticky{{env{} {} had {} now {}}}", i, NAMES[*n], want, obs.gets[*n]));
                 }
+            }
+            for (n, s) in shown(&l.env) {
+                l.spec.pinned.entry(n).or_insert(s);
             }
             impl_envs.push(obs.model_part());
             l.last_obs = Some(obs);
@@ -836,6 +1315,50 @@ fn run_history(ops: &[Op], hseed: u64) -> (String, String, String, String) {
         notes.push(note);
     }
     (case_toks.join(" "), impl_steps.join(" / "), oracle_steps.join(" / "), notes.join(" "))
+}
+
+/// `#cmp` and `#tbl` header lines (see the module documentation); computed once per process
+fn tables() -> &'static String {
+    static T: OnceLock<String> = OnceLock::new();
+    T.get_or_init(|| {
+        let mut out = String::new();
+        let mut cmp: BTreeMap<(u8, usize), bool> = BTreeMap::new();
+        for trim in 0..2u8 {
+            for lstrip in 0..2u8 {
+                for ktn in 0..2u8 {
+                    for syn in 0..3u8 {
+                        for ae in 0..4u8 {
+                            let lt: Lt = [trim, lstrip, ktn, syn, ae];
+                            let mut env = new_env();
+                            let mut cur = LT_DEFAULT;
+                            apply_lt(&mut env, &mut cur, &lt);
+                            for (s, src) in SOURCES.iter().enumerate() {
+                                for (n, name) in NAMES.iter().enumerate() {
+                                    let ok = match env.template_from_named_str(name, src) {
+                                        Ok(t) => {
+                                            out.push_str(&format!("#tbl {} {} {} {}\n", n, s, lt_code(&lt), fingerprint(&t)));
+                                            true
+                                        }
+                                        Result::Err(_) => false,
+                                    };
+                                    match cmp.get(&(syn, s)) {
+                                        Some(prev) if *prev != ok => out.push_str(&format!("#cmp-inconsistent {} {}\n", syn, s)),
+                                        _ => {
+                                            cmp.insert((syn, s), ok);
+                                        }
+                                    }
+                                }
+                            }
+                        }
+                    }
+                }
+            }
+        }
+        for ((syn, s), ok) in cmp {
+            out.push_str(&format!("#cmp {} {} {}\n", syn, s, ok as u8));
+        }
+        out
+    })
 }
 
 // ======================================================================================
@@ -1061,6 +1584,7 @@ fn main() {
                 None => if thorough { 100_000 } else { 10_000 },
             };
             let mut rng = Rng::new(seed_from_env());
+            out.write_all(tables().as_bytes()).unwrap();
             for h in 0..count {
                 let ops = gen_history(&mut rng, h % 4 == 0);
                 let hseed = rng.next();
@@ -1071,6 +1595,7 @@ fn main() {
         Some("one") => {
             let toks: Vec<String> = args[2..].iter().flat_map(|s| s.split_whitespace().map(|x| x.to_string()).collect::<Vec<_>>()).collect();
             let ops: Vec<Op> = toks.iter().filter_map(|t| parse_op(t)).collect();
+            out.write_all(tables().as_bytes()).unwrap();
             for seed in 0..4u64 {
                 let (case, imp, orc, notes) = run_history(&ops, seed);
                 writeln!(out, "{}\t{}\t{}\t{}", case, imp, orc, notes).unwrap();
@@ -1098,6 +1623,7 @@ fn main() {
         Some("file") => {
             // one history per line (corpus of minimised past failures)
             let text = std::fs::read_to_string(&args[2]).unwrap_or_default();
+            out.write_all(tables().as_bytes()).unwrap();
             for (i, line) in text.lines().enumerate() {
                 let line = line.trim();
                 if line.is_empty() || line.starts_with('#') {
